@@ -1,9 +1,9 @@
 //! The fixed family of template programs of the C13 checks (shared by c13.rs and c13_trace.rs).
 #![allow(dead_code)]
-use minijinja::context;
 use minijinja::value::Value;
+use minijinja::{context, Environment, State};
 
-pub const NPROGS: i64 = 34;
+pub const NPROGS: i64 = 41;
 
 pub fn rep(s: &str, n: i64) -> String {
     s.repeat(n.max(0) as usize)
@@ -139,10 +139,97 @@ pub fn program(id: i64, n: i64, m: i64, _k: i64) -> Vec<(String, String)> {
             "main",
             "{% for i in items %}{{ i }}{% endfor %}{{ probe() }}{{ n + m }}{{ missing.attr.deeper }}tail".into(),
         )],
-        _ => vec![
+        33 => vec![
             t("main", "{% for i in items %}{% include 'inc' %}{% endfor %}".into()),
             t("inc", "{{ i }}{{ probe() }}{% if i == k %}{{ 1 // 0 }}{% endif %}".into()),
         ],
+        // super() as an operand (CallFunction("super"), not FastSuper), position k % 6, extends chain of depth m % 3 + 1
+        34 => super_chain(m.rem_euclid(3) + 1, |_level| vec![_k.rem_euclid(6)]),
+        // three positions per block (all six over two adjacent levels), at every level of the chain
+        35 => super_chain(m.rem_euclid(3) + 1, |level| (0..3).map(|p| (2 * p + level) % 6).collect()),
+        // macros, self.block() and imported macros in value position
+        36 => vec![
+            t("main", "{% import 'lib' as lib %}{% macro mac(x) %}{% for i in range(x) %}m{% endfor %}{{ probe() }}{% endmacro %}\
+{% block title %}T{% for i in items %}{{ i }}{% endfor %}{{ probe() }}{% endblock %}\
+{% set v = mac(n) %}{{ v|upper }}{{ mac(m) ~ mac(1) }}{% if mac(k) %}y{% endif %}{{ mac(n) is string }}{{ [mac(2), mac(m)]|length }}\
+{% set t = self.title() %}{{ t|upper }}{{ self.title() ~ '!' }}{{ lib.one(n)|upper }}{% set z = lib.twice(m) %}{{ z|length }}{{ probe() }}".into()),
+            t("lib", "{% macro one(x) %}{% for i in range(x) %}o{% endfor %}{{ probe() }}{% endmacro %}{% macro twice(x) %}{{ one(x) }}{{ one(x)|upper }}{% endmacro %}".into()),
+        ],
+        // include and call blocks inside captures whose value is used
+        37 => vec![
+            t("main", "{% macro wrap(t) %}<{{ caller(t) }}{{ probe() }}>{% endmacro %}\
+{% set v %}{% include 'inc' %}{% endset %}{{ v|upper }}{% set w %}{% call(x) wrap(n) %}{% for i in range(x) %}c{% endfor %}{% include 'inc' %}{% endcall %}{% endset %}{{ w|length }}\
+{% filter upper %}{% include 'inc' %}{% call(x) wrap(m) %}{{ x }}{% endcall %}{% endfilter %}{{ probe() }}".into()),
+            t("inc", "({% for i in items %}{{ i }}{% endfor %}{{ probe() }})".into()),
+        ],
+        // host callbacks that re-enter the interpreter: function, filter and test calling a macro
+        38 => vec![t(
+            "main",
+            "{% macro mac(x) %}{% for i in range(x) %}m{% endfor %}{{ probe() }}{% endmacro %}{% macro yes(x) %}{% for i in items %}{% endfor %}{{ probe() }}1{% endmacro %}\
+{{ callit(mac, n) }}{{ callit(mac, m)|upper }}{{ n|via(mac) }}{{ (m|via(mac)) ~ 'x' }}{% if k is okby(yes) %}t{% endif %}{{ [1, 2]|map('via', mac)|join }}{{ items|select('okby', yes)|list|length }}{{ probe() }}".into(),
+        )],
+        // a custom formatter that re-enters the interpreter
+        39 => vec![t(
+            "main",
+            "{% macro mac() %}{% for i in items %}f{% endfor %}{{ probe() }}{% endmacro %}{{ {'__fmt': mac} }}{% for j in range(m) %}{{ {'__fmt': mac} }}{{ j }}{% endfor %}{{ probe() }}".into(),
+        )],
+        // combination: a parent block that includes and calls macros, reached through super() in value position from a macro of the child
+        _ => vec![
+            t("main", "{% extends 'mid' %}{% block body %}{% set s = super() %}{{ s|length }}{{ callit(deco, super()) }}{{ probe() }}{% endblock %}".into()),
+            t("mid", "{% extends 'base' %}{% macro deco(x) %}<{{ x }}>{{ probe() }}{% endmacro %}{% block body %}{{ deco(super())|upper }}{% include 'inc' %}{% endblock %}".into()),
+            t("base", "{% macro deco(x) %}[{{ x }}]{% endmacro %}<{% block body %}{% for i in items %}{% include 'inc' %}{% endfor %}{{ probe() }}{% endblock %}>".into()),
+            t("inc", "({{ k }}{{ probe() }})".into()),
+        ],
+    }
+}
+
+/// `main` extends p1 extends ... extends p<depth>; every non-base level overrides block `body` and uses
+/// super() in the expression positions `positions(level)`: 0 filter operand, 1 set, 2 concat operand,
+/// 3 call argument, 4 test operand, 5 if condition.
+fn super_chain(depth: i64, positions: impl Fn(i64) -> Vec<i64>) -> Vec<(String, String)> {
+    let name = |level: i64| if level == 0 { "main".to_string() } else { format!("p{}", level) };
+    let mut v = vec![];
+    for level in 0..depth {
+        let mut body = String::new();
+        for p in positions(level) {
+            body.push_str(match p {
+                0 => "{{ super()|upper }}",
+                1 => "{% set s = super() %}[{{ s }}]",
+                2 => "{{ super() ~ 'x' }}",
+                3 => "{{ dict(a=super()).a }}{{ callit(idm, super()) }}",
+                4 => "{{ super() is string }}",
+                _ => "{% if super() %}yes{{ probe() }}{% endif %}",
+            });
+        }
+        v.push((
+            name(level),
+            format!("{{% extends '{}' %}}{{% macro idm(x) %}}{{{{ x }}}}{{% endmacro %}}{{% block body %}}{}{{{{ probe() }}}}{{% endblock %}}", name(level + 1), body),
+        ));
+    }
+    v.push((
+        name(depth),
+        "{% macro idm(x) %}{{ x }}{% endmacro %}<{% block body %}{% for i in items %}{{ i }}{% if i == k %}{{ probe() }}{% endif %}{% endfor %}{{ probe() }}{% endblock %}>".to_string(),
+    ));
+    v
+}
+
+/// Host functions, filters, tests (and for program 39 a formatter) that re-enter the interpreter.
+pub fn install(env: &mut Environment<'_>, prog: i64) {
+    env.add_function("callit", |state: &mut State, f: Value, a: Value| f.call(state, &[a]));
+    env.add_filter("via", |state: &mut State, v: Value, f: Value| f.call(state, &[v]));
+    env.add_test("okby", |state: &mut State, v: Value, f: Value| -> Result<bool, minijinja::Error> {
+        Ok(f.call(state, &[v])?.is_true())
+    });
+    if prog == 39 {
+        env.set_formatter(|out, state, value| {
+            let f = value.get_attr("__fmt").unwrap_or(Value::UNDEFINED);
+            if f.is_undefined() {
+                minijinja::escape_formatter(out, state, value)
+            } else {
+                let r = f.call(state, &[])?;
+                minijinja::escape_formatter(out, state, &r)
+            }
+        });
     }
 }
 
